@@ -67,6 +67,29 @@ impl CLCiphersuite for Toy2 {
     const s2: u32 = 552;
 }
 
+// A very small suite (17-bit primes): whole flows are cheap enough to be re-evaluated INSIDE Coq with vm_compute on the logged
+// draws, so that model, extraction and implementation are compared three ways on complete protocol runs.
+#[derive(Clone, PartialEq, Eq, Debug, Serialize, Deserialize)]
+pub struct Micro {}
+impl Ciphersuite for Micro {
+    type HashAlg = sha2::Sha256;
+}
+impl CLCiphersuite for Micro {
+    const SECPARAM: u32 = 16;
+    const QSEC: u32 = 4;
+    const ln: u32 = 40;
+    const lm: u32 = 8;
+    const lin: u32 = 8;
+    const le: u32 = Self::lm + 2;
+    const ls: u32 = Self::ln + Self::lm + Self::lin;
+    const RANGEPROOF_ALG: RangeProof = RangeProof::Boudot2000;
+    const t: u32 = 128;
+    const l: u32 = 40;
+    const s: u32 = 40;
+    const s1: u32 = 40;
+    const s2: u32 = 552;
+}
+
 fn z(t: &str) -> Integer {
     Integer::from_str_radix(t, 10).expect("integer")
 }
@@ -211,6 +234,7 @@ pub fn dispatch(op: &str, t: &[&str]) -> Option<Out> {
     Some(match t[0] {
         "toy" => run::<Toy>(op, &t[1..]),
         "toy2" => run::<Toy2>(op, &t[1..]),
+        "micro" => run::<Micro>(op, &t[1..]),
         "cl1024" => run::<CL1024Sha256>(op, &t[1..]),
         "cl2048" => run::<CL2048Sha256>(op, &t[1..]),
         "cl3072" => run::<CL3072Sha256>(op, &t[1..]),
